@@ -412,7 +412,7 @@ def r14(db, ctx):
             ctx.ok('R1.4', f, f'{kind}: i <-> (i mod R, i div R)', ['same R on both sides'])
     # scores::Iter::new end
     f = db.fn("lightmotif::scores::Iter::<'a, T, C>::new")
-    R = X.Rec(f)
+    R = X.Rec(f, ite=True)      # `if a < b { a } else { b }` is min(a, b)
     agg = None
     for blk in f.blocks:
         for st in blk['stmts']:
@@ -432,7 +432,7 @@ def r15(db, ctx):
     ctx.rule('R1.5', 'dispatcher arms: the arm for backend V calls V\'s implementation of the operation being dispatched; other variants fall back to the generic one')
     n = 0
     fs = [f for f in db.fns.values() if f.path.startswith('lightmotif::pli::dispatch::<impl ') and f.kind == 'AssocFn' and not f.promoted_of]
-    opmap = {'encode_into': ('encode_into',), 'score_rows_into': ('score_f32_rows_into', 'score_u8_rows_into_shuffle', 'score_rows_into'), 'stripe_into': ('stripe_into',),
+    opmap = {'encode_into': ('encode_into',), 'score_rows_into': ('score_f32_rows_into', 'score_u8_rows_into_shuffle', 'score_u8_rows_into', 'score_rows_into'), 'stripe_into': ('stripe_into',),
              'argmax': ('argmax_f32', 'argmax_u8', 'argmax'), 'max': ('max_f32', 'max_u8', 'max')}
     disp = db.adts.get('lightmotif::pli::dispatch::Dispatch')
     vnames = {int(v['discr']): v['name'] for v in disp['variants']} if disp else {}
@@ -469,7 +469,14 @@ def r15(db, ctx):
             n += 1
             ctx.ok('R1.5', f, f'{op}<{elem}>: arm {cons} -> {c.rsplit("::", 2)[-2]}::{meth}')
         if arms == 0:
-            ctx.fail('R1.5', f, f'{op}', 'reason=unrecognised-shape: no call under a match on self.backend')
+            # a target without an accelerated arm for this operation: the body must be the unconditional generic fallback
+            ws = [(bi, t) for bi, t in f.calls() if (f.callee_short(t) or '').startswith('lightmotif::pli::') and not (f.callee_short(t) or '').endswith('as_ref')]
+            fulls = [(t.get('callee_full') or t.get('resolved_full') or '') for _, t in ws]
+            if len(ws) == 1 and (f.callee_short(ws[0][1]) or '').rsplit('::', 1)[-1] == op and 'Generic' in fulls[0]:
+                n += 1
+                ctx.ok('R1.5', f, f'{op}<{elem}>: no accelerated arm on this target, unconditional generic fallback')
+            else:
+                ctx.fail('R1.5', f, f'{op}', 'reason=unrecognised-shape: no call under a match on self.backend')
     ctx.floor('R1.5', n, 16, 'dispatcher arms')
 
 
